@@ -169,11 +169,14 @@ def scriptSrc (s : Script) : String :=
 structure Layout where
   cwd : Str
   root : List Str
-  hasMod : Bool
+  /-- the directories that hold a go.mod (several: nested modules) -/
+  sentinels : List (List Str)
   scripts : List Script
 
+def Layout.hasMod (l : Layout) : Bool := !l.sentinels.isEmpty
+
 def Layout.world (l : Layout) : World :=
-  { cwd := l.cwd, files := l.scripts.map (·.path) ++ (if l.hasMod then [l.root ++ [sentinel]] else []) }
+  { cwd := l.cwd, files := l.scripts.map (·.path) ++ l.sentinels.map (· ++ [sentinel]) }
 
 def Layout.scriptAt (l : Layout) (cs : List Str) : Option Script := l.scripts.find? (fun s => s.path = cs)
 
@@ -215,6 +218,42 @@ def Layout.run (l : Layout) (mainPath : Str) (main : Script) : String :=
   | .error (.err _) => "error"
   | .error .hang => "timeout"
   | .error .fuel => "model-out-of-fuel"
+
+/-- the files `afero.ReadFile` is asked for, in the order of the compile: `fileValue` reads the file
+before the cache is consulted; the first failure aborts everything -/
+structure Tr where
+  reads : List (List Str)
+  done : List Str
+
+def Layout.traceImports (l : Layout) (fuel : Nat) (chain : List Str) (st : Tr) (srcDir : Str)
+    (imps : List (Bool × Str)) : Bool × Tr :=
+  match imps with
+  | [] => (true, st)
+  | i :: r =>
+    match resolve l.world srcDir i.1 i.2 with
+    | .error _ => (false, st)
+    | .ok f =>
+      let cs := comps l.cwd f
+      let st := { st with reads := cs :: st.reads }
+      match l.scriptAt cs with
+      | none => (false, st)
+      | some s =>
+        if f ∈ chain then (false, st)
+        else if f ∈ st.done then l.traceImports fuel chain st srcDir r
+        else match fuel with
+          | 0 => (false, st)
+          | fuel' + 1 =>
+            match l.traceImports fuel' (f :: chain) st (sourceDir f) s.imports with
+            | (false, st') => (false, st')
+            | (true, st') => l.traceImports (fuel' + 1) chain { st' with done := f :: st'.done } srcDir r
+termination_by (fuel, imps.length)
+
+def Layout.opens (l : Layout) (mainPath : Str) (main : Script) : String :=
+  let (_, st) := l.traceImports 60 [] { reads := [], done := [] } (sourceDir mainPath) main.imports
+  ",".intercalate (dedupAdj (sortStrs (st.reads.map (fun cs => str (render true cs)))))
+
+def Layout.obs (l : Layout) (mainPath : Str) (main : Script) : String :=
+  s!"open={l.opens mainPath main}|out={l.run mainPath main}"
 
 def relDirs : List (List Str) := [[], [], ["d".toList], ["d".toList, "e".toList], ["lib".toList], ["d".toList, "x y".toList]]
 
@@ -296,13 +335,13 @@ def genLayout (shape : Nat) : Gen (Layout × Str × Script) := do
   let cwdCs := levelComps cwdLevel
   let mainPath : Str :=
     if !absolute && cwdCs <+: mainCs then joinSlash (mainCs.drop cwdCs.length) else render true mainCs
-  let l : Layout := { cwd := cwdStr, root, hasMod, scripts := scriptsR }
+  let l : Layout := { cwd := cwdStr, root, sentinels := if hasMod then [root] else [], scripts := scriptsR }
   pure (l, mainPath, scriptsR.headD { path := [], id := 0, imports := [] })
 
 def graphCaseOf (id stratum : String) (l : Layout) (mainPath : Str) (main : Script) : Case :=
-  let obs := l.run mainPath main
+  let obs := l.obs mainPath main
   let files := l.scripts.flatMap (fun s => [str (render true s.path), scriptSrc s]) ++
-    (if l.hasMod then [str (render true (l.root ++ [sentinel])), "module m\n"] else [])
+    l.sentinels.flatMap (fun d => [str (render true (d ++ [sentinel])), "module m\n"])
   { id := id, cls := "good", kind := "fsrun", stratum := stratum, model := obs, spec := obs,
     payload := [str mainPath, scriptSrc main] ++ files }
 
@@ -313,6 +352,82 @@ def genGraphCase (idx : Nat) : Gen Case := do
   let shape ← pick [0, 0, 1, 2, 3, 3, 3]
   let (l, mainPath, main) ← genLayout shape
   pure (graphCaseOf s!"C16-g{idx}" ("graph/" ++ shapeName shape ++ (if l.hasMod then "" else "/nomod")) l mainPath main)
+
+/-! ## nested modules: go.mod at several depths, the same relative names in every directory with
+different contents, module-rooted imports from scripts at every depth (also directly in a nested root),
+and several imports in one evaluation — in both orders, so that the root cache is warm from an earlier
+import when a later one resolves -/
+
+def treeDirs : List (List Str) :=
+  [[], ["s".toList], ["s".toList, "t".toList], ["u".toList], ["s".toList, "v".toList]]
+
+def nestedChoices : List (List (List Str)) :=
+  [ [["s".toList]], [["s".toList], ["s".toList, "t".toList]], [["u".toList]], [["s".toList, "t".toList]],
+    [["s".toList], ["u".toList]], [["s".toList], ["s".toList, "v".toList]] ]
+
+/-- a layout with nested modules and two main scripts that differ only in the order of their imports -/
+def genNested : Gen (Layout × Str × Script × Script) := do
+  let place ← rand 3
+  let root : List Str := match place with
+    | 0 => levelComps cwdLevel
+    | 1 => levelComps cwdLevel ++ ["proj".toList]
+    | _ => ["srv".toList, "m".toList]
+  let outer ← chance 5 6
+  let nested ← pick nestedChoices
+  let sentinels := (if outer then [root] else []) ++ nested.map (root ++ ·)
+  -- every directory has data (distinct ids), util, and lib which imports /data (and more)
+  let mut scripts : List Script := []
+  let mut j := 0
+  for d in treeDirs do
+    let dir := root ++ d
+    let extra ← rand 4
+    let libImps : List (Bool × Str) :=
+      [(false, "/data".toList)] ++
+      (match extra with
+       | 0 => [(true, "/data".toList)]
+       | 1 => [(false, "/util".toList)]
+       | 2 => [(false, "/data.arrai ".toList), (true, "/util".toList)]
+       | _ => [])
+    scripts := { path := dir ++ ["lib.arrai".toList], id := 10 + j, imports := libImps } ::
+      { path := dir ++ ["util.arrai".toList], id := 200 + j, imports := [] } ::
+      { path := dir ++ ["data.arrai".toList], id := 100 + j, imports := [] } :: scripts
+    j := j + 1
+  let mainDirRel ← pick treeDirs
+  let mainDir := root ++ mainDirRel
+  let mainCs := mainDir ++ ["main.arrai".toList]
+  let w : World := { cwd := cwdStr, files := scripts.map (·.path) ++ sentinels.map (· ++ [sentinel]) }
+  let mainRoot := findRoot w (render true mainDir)
+  -- candidates: lib/data/util of every directory that main can name
+  let k ← (do let x ← rand 3; pure (x + 2))
+  let mut imps : List (Bool × Str) := []
+  for _ in [0:k] do
+    let d ← pick treeDirs
+    let name ← pick ["lib.arrai", "lib.arrai", "lib.arrai", "data.arrai", "util.arrai"]
+    let target := root ++ d ++ [name.toList]
+    let canDot := mainDir <+: target
+    let canRoot := match mainRoot with | some r => r <+: target | none => false
+    if canDot || canRoot then
+      let sp ← genSpelling mainRoot.isSome (mainRoot.getD []) mainDir target
+      imps := sp :: imps
+  -- a module-rooted import of main's own module, to warm the root cache for main's directory chain
+  if mainRoot.isSome then
+    let nm ← pick ["/util", "/data", "/lib"]
+    let front ← chance 1 2
+    imps := if front then imps ++ [(false, nm.toList)] else (false, nm.toList) :: imps
+  let absolute ← chance 1 2
+  let cwdCs := levelComps cwdLevel
+  let mainPath : Str :=
+    if !absolute && cwdCs <+: mainCs then joinSlash (mainCs.drop cwdCs.length) else render true mainCs
+  let fwd : Script := { path := mainCs, id := 0, imports := imps }
+  let rev : Script := { path := mainCs, id := 0, imports := imps.reverse }
+  pure ({ cwd := cwdStr, root, sentinels, scripts := scripts.reverse }, mainPath, fwd, rev)
+
+def genNestedCases (idx : Nat) : Gen (List Case) := do
+  let (l, mainPath, fwd, rev) ← genNested
+  let lf : Layout := { l with scripts := fwd :: l.scripts }
+  let lr : Layout := { l with scripts := rev :: l.scripts }
+  pure [ graphCaseOf s!"C16-n{idx}-fwd" "nested/fwd" lf mainPath fwd,
+         graphCaseOf s!"C16-n{idx}-rev" "nested/rev" lr mainPath rev ]
 
 /-! ## corpus: witnesses of the repaired defects and minimised past failures -/
 def mkScript (path : String) (id : Nat) (imports : List (Bool × String)) : Script :=
@@ -326,12 +441,25 @@ def corpusGraphs : List Case :=
   let b := mkScript (r ++ "/b.arrai") 2 [(true, "/a.arrai")]
   let m := mkScript (r ++ "/main.arrai") 0 [(true, "/a")]
   let mr := mkScript (r ++ "/main.arrai") 0 [(false, "/main"), (true, "/main")]
-  [ graphCaseOf "C16-corpus-cycle-self" "corpus/cycle" { cwd := cwdStr, root, hasMod := true, scripts := [self] }
+  [ graphCaseOf "C16-corpus-cycle-self" "corpus/cycle" { cwd := cwdStr, root, sentinels := [root], scripts := [self] }
       "main.arrai".toList self,
-    graphCaseOf "C16-corpus-cycle-ab" "corpus/cycle" { cwd := cwdStr, root, hasMod := true, scripts := [m, a, b] }
+    graphCaseOf "C16-corpus-cycle-ab" "corpus/cycle" { cwd := cwdStr, root, sentinels := [root], scripts := [m, a, b] }
       (render true m.path) m,
-    graphCaseOf "C16-corpus-cycle-rel-abs" "corpus/cycle" { cwd := cwdStr, root, hasMod := true, scripts := [mr] }
+    graphCaseOf "C16-corpus-cycle-rel-abs" "corpus/cycle" { cwd := cwdStr, root, sentinels := [root], scripts := [mr] }
       "main.arrai".toList mr ]
+
+/-- minimised past failure (root cache consulted for the PARENT directory): a script directly in a
+nested module root must resolve `//{/data}` against the nested module, whatever was resolved before -/
+def corpusNested : List Case :=
+  let root := ["srv".toList, "m".toList]
+  let mk (order : Bool) : Script :=
+    mkScript "/srv/m/main.arrai" 0 (if order then [(false, "/util"), (true, "/sub/lib")] else [(true, "/sub/lib"), (false, "/util")])
+  let files := [ mkScript "/srv/m/sub/lib.arrai" 1 [(false, "/data")], mkScript "/srv/m/data.arrai" 100 [],
+                 mkScript "/srv/m/sub/data.arrai" 10 [], mkScript "/srv/m/util.arrai" 2 [] ]
+  let lay (m : Script) : Layout :=
+    { cwd := cwdStr, root, sentinels := [root, root ++ ["sub".toList]], scripts := m :: files }
+  [ graphCaseOf "C16-corpus-nested-root-warm" "corpus/nested" (lay (mk true)) "/srv/m/main.arrai".toList (mk true),
+    graphCaseOf "C16-corpus-nested-root-cold" "corpus/nested" (lay (mk false)) "/srv/m/main.arrai".toList (mk false) ]
 
 def corpus : List Case :=
   [ -- the escape: relative source directory, `//{./ ../a}` read the marker one level above go.mod
@@ -344,7 +472,7 @@ def corpus : List Case :=
     impCase "C16-corpus-root-dd" "corpus" { dot := false, absolute := false, srcLevel := 5, modLevel := some 5 } " ..".toList,
     impCase "C16-corpus-plain" "corpus" { dot := true, absolute := true, srcLevel := 4, modLevel := some 3 } "a/a".toList,
     impCase "C16-corpus-root" "corpus" { dot := false, absolute := false, srcLevel := 6, modLevel := some 4 } "a/a".toList,
-    pathfnCase "C16-corpus-pathfn" "corpus" "a/../..//b/".toList "../x".toList ] ++ corpusGraphs
+    pathfnCase "C16-corpus-pathfn" "corpus" "a/../..//b/".toList "../x".toList ] ++ corpusGraphs ++ corpusNested
 
 def gen (seed n : Nat) (thorough : Bool) : List Case := Id.run do
   let mut out := corpus.reverse
@@ -363,6 +491,12 @@ def gen (seed n : Nat) (thorough : Bool) : List Case := Id.run do
   for i in [0:nGraphs] do
     let (c, _) := (genGraphCase i).run (seedOf seed (1650000 + i))
     out := c :: out
+  -- nested modules, each layout with its imports in both orders
+  let nNested := if thorough then 5000 else n * 200 / 5300
+  for i in [0:nNested] do
+    let (cs, _) := (genNestedCases i).run (seedOf seed (1670000 + i))
+    for c in cs do
+      out := c :: out
   if thorough then
     -- exhaustive: every string up to length 4 in every configuration; length 5 to 7 in two
     -- configurations each (rotating); every string also through pathfn
